@@ -58,6 +58,8 @@ def main(argv: list[str]) -> int:
     jobs = []
     if seeded:
         for d in sorted(glob.glob(os.path.join(ROOT, "seeded", "*"))):
+            if not os.path.isdir(d):
+                continue
             meta = json.load(open(os.path.join(d, "meta.json")))
             if (not names or os.path.basename(d) in names) and (prop is None or meta["property"] == prop):
                 jobs.append((os.path.basename(d), meta["property"], ("diff", os.path.join(d, "patch.diff"))))
